@@ -430,6 +430,7 @@ double reb_integrator_mercurius_calculate_dcrit_for_particle(struct reb_simulati
 
 
 void reb_integrator_mercurius_part1(struct reb_simulation* r){
+    if (r->N==0) return; // Nothing to integrate (all particles removed): the hybrid steps read particles[0].
     if (r->N_var_config){
         reb_simulation_warning(r,"Mercurius does not work with variational equations.");
     }
@@ -501,6 +502,11 @@ void reb_integrator_mercurius_part1(struct reb_simulation* r){
 }
 
 void reb_integrator_mercurius_part2(struct reb_simulation* const r){
+    if (r->N==0){
+        r->t+=r->dt;
+        r->dt_last_done = r->dt;
+        return;
+    }
     struct reb_integrator_mercurius* const rim = &(r->ri_mercurius);
     const int N = r->N;
    
@@ -536,6 +542,7 @@ void reb_integrator_mercurius_part2(struct reb_simulation* const r){
 }
 
 void reb_integrator_mercurius_synchronize(struct reb_simulation* r){
+    if (r->N==0) return;
     struct reb_integrator_mercurius* const rim = &(r->ri_mercurius);
     if (rim->is_synchronized == 0){
         r->gravity = REB_GRAVITY_MERCURIUS; // needed here again for Simulationarchive
